@@ -338,10 +338,11 @@ func toSubtitlesSRT(d srtDoc) *astisub.Subtitles {
 // ---------------------------------------------------------------------------
 // Generators
 
-var srtColors = []string{"#ff0000", "#00FF00", "red", "yellow", "#1a2b3c", "rgb(1,2,3)"}
+var srtColors = []string{"#ff0000", "#00FF00", "red", "yellow", "#1a2b3c", "rgb(1,2,3)", "00ff00", "fff", "12345678", "#FFF", "Red"}
 
 var srtTextOpts = textOpts{
-	extra:    []string{"&amp;", "&lt;", "&nbsp;", "&gt;", "<b>", "</i>", "<font color=\"red\">", "{\\an8}", "00:00:01,000", "->", "--", "1", "23", "NOTE", "WEBVTT", "&#65;", "&", "<", "a<b", "x>y", "<3"},
+	feff:     true,
+	extra:    []string{"\ufeffa", "\ufeff", "&amp;", "&lt;", "&nbsp;", "&gt;", "<b>", "</i>", "<font color=\"red\">", "{\\an8}", "00:00:01,000", "->", "--", "1", "23", "NOTE", "WEBVTT", "&#65;", "&", "<", "a<b", "x>y", "<3"},
 	forbid:   []string{"-->"},
 	controls: true,
 	nbsp:     true,
